@@ -70,6 +70,7 @@ type params struct {
 	DelayA    int    `json:"audio_path_delay_ms"`
 	DelayV    int    `json:"video_path_delay_ms"`
 	H264Multi bool   `json:"h264_multi_nal_keyframes,omitempty"`
+	VeryLong  bool   `json:"very_long_hold,omitempty"`
 }
 
 var classes = []string{"inorder", "reorder", "dup", "reorder-dup", "gap-cache", "gap-cache-reorder-dup", "gap-lost", "gap-mixed", "late-start"}
@@ -79,6 +80,7 @@ var classes = []string{"inorder", "reorder", "dup", "reorder-dup", "gap-cache", 
 // still identifies a case and the other classes keep their indices.
 const (
 	longHoldBase = uint64(1) << 20
+	veryLongOff  = uint64(1) << 16 // k >= veryLongOff: holds of more than a minute
 	// the recorder's muxer (mkvcore's multi track block sorter) starts writing a
 	// track's oldest blocks once it holds more than videoMaxLate+16 of them
 	sorterWindow = 272
@@ -99,6 +101,11 @@ func genLongHold(r *rand.Rand, idx uint64, thorough bool) params {
 	}
 	p.Fps = 3 + int(k%4)
 	p.NV = 60 + r.IntN(61)
+	if k >= veryLongOff {
+		// one packet per frame at 3 frames/s: 185-200 packets are more than a
+		// minute, see planLongHold
+		p.VeryLong, p.Fps, p.PPF, p.NV = true, 3, "1", 330+r.IntN(31)
+	}
 	sr := [][2]string{{"before", "before"}, {"never", "never"}, {"before", "never"}, {"never", "before"}, {"after", "after"}, {"never", "after"}, {"after", "before"}}[k%7]
 	p.SRV, p.SRA = sr[0], sr[1]
 	p.End = []string{"departure", "close"}[(k/2)%2]
@@ -407,6 +414,8 @@ func chunkSizes(r *rand.Rand, n int, firstMin int) []int {
 
 func ppfCount(r *rand.Rand, class string, key bool) int {
 	switch class {
+	case "1":
+		return 1
 	case "s":
 		return 1 + r.IntN(2)
 	case "m":
@@ -919,10 +928,22 @@ func planLongHold(t *track, r *rand.Rand, delay float64) []event {
 	l1 = max(30, min(l1, 200, room))
 	late := map[int]int{}
 	v1 := pick(l1, -1)
+	if t.s.p.VeryLong {
+		// a packet sent 18-30 s into the stream arrives 185-200 packets (more
+		// than a minute) later
+		l1 = 185 + r.IntN(16)
+		var cands []int
+		for pi := pmin; pi+l1 <= n-1; pi++ {
+			if c := t.frames[t.pkts[pi].frame].capMs - captureBase; eligible(pi) && c >= 18000 && c < 30000 {
+				cands = append(cands, pi)
+			}
+		}
+		v1 = cands[r.IntN(len(cands))]
+	}
 	if v1 >= 0 {
 		late[v1] = l1
 	}
-	if r.IntN(2) == 0 {
+	if !t.s.p.VeryLong && r.IntN(2) == 0 {
 		// second victim: any lateness in the window, anywhere (the two holds may
 		// be nested, overlap or be apart)
 		l2 := 30 + r.IntN(171)
@@ -1186,6 +1207,7 @@ type sample struct {
 	file int
 	pos  int
 	ts   uint32 // reference run only
+	ctc  int64  // timecode of the cluster holding the block, ms (file only)
 }
 
 type issue struct {
@@ -1757,7 +1779,8 @@ func (s *session) judge(primary bool) *verdict {
 				break
 			}
 			tc := int64(math.Round(float64(b.Timecode) * scale))
-			per[ti] = append(per[ti], sample{data: b.Data, tc: tc, file: fi, pos: bi})
+			ctc := int64(math.Round(float64(b.Timecode-int64(b.Rel)) * scale))
+			per[ti] = append(per[ti], sample{data: b.Data, tc: tc, file: fi, pos: bi, ctc: ctc})
 			nblocks++
 		}
 		// the file must not change any more
@@ -2041,6 +2064,9 @@ func (s *session) longHoldCoverage(v *verdict) {
 		videoClean = videoClean && f.trk != 1
 	}
 	run.Count("long_hold_sessions", 1)
+	if s.p.VeryLong {
+		run.Count("long_hold_sessions_held_over_a_minute", 1)
+	}
 	run.Count("long_hold_late_video_packets", int64(len(t.late)))
 	run.Count("long_hold_video_frames_held_back", int64(held))
 	run.Count("long_hold_frames_released_behind_written_audio", int64(behind))
@@ -2172,7 +2198,7 @@ func main() {
 	os.MkdirAll(group.Directory, 0o755)
 	run.MaxReplays = 40
 
-	rule := "sessions generated from (seed, index): codec set x delivery class (in order / reordered <= 10 packets / duplicated / withheld-but-cached / withheld-and-lost / mixed / late start) x sender-report timing per track (before, midstream and repeated, never) x seqno and timestamp wrap x packets-per-frame class x end (departure, Close); each session drives the real diskwriter through conn.Up/UpTrack/DownTrack and its file is read back with an independent EBML reader; distinct_nontrivial = distinct (codecs, delivery class, SR timing, wrap flags, packets-per-frame class) among sessions whose recording holds at least one block. An end-to-end tier (e2e.go) then has the real server record id-tagged multi-packet VP8 (+ Opus) streams published over SRTP (record/unrecord over the websocket, pion publisher, packet cache and writer pool in front of the diskwriter, seqno and timestamp wraps, four ways of ending) and judges every block of the WebM files it leaves behind against the frames sent (counters e2e_*)"
+	rule := "sessions generated from (seed, index): codec set x delivery class (in order / reordered <= 10 packets / duplicated / withheld-but-cached / withheld-and-lost / mixed / late start; plus a fixed list of long-hold sessions: Opus next to video of 3-6 frames/s and 1-2 packets per frame, 60-120 frames, in order and complete except one or two mid-stream video packets that arrive 30-200 video packets - 6.5 s or more of media - late, in the thorough tier also four sessions with a packet more than a minute late) x sender-report timing per track (before, midstream and repeated, never) x seqno and timestamp wrap x packets-per-frame class x end (departure, Close); each session drives the real diskwriter through conn.Up/UpTrack/DownTrack and its file is read back with an independent EBML reader; distinct_nontrivial = distinct (codecs, delivery class, SR timing, wrap flags, packets-per-frame class) among sessions whose recording holds at least one block. An end-to-end tier (e2e.go) then has the real server record id-tagged multi-packet VP8 (+ Opus) streams published over SRTP (record/unrecord over the websocket, pion publisher, packet cache and writer pool in front of the diskwriter, seqno and timestamp wraps, four ways of ending) and judges every block of the WebM files it leaves behind against the frames sent (counters e2e_*)"
 
 	if rep, ok := vk.ReplayInput(); ok {
 		if sd, ok := rep["seed"].(float64); ok {
@@ -2192,6 +2218,7 @@ func main() {
 
 	n := run.Pick(306, 5004)
 	nLong := run.Pick(8, 168) // long-hold sessions (index space longHoldBase + k), run first: they are the longest
+	nVery := run.Pick(0, 4)   // of which, holds of more than a minute (k >= veryLongOff)
 	thorough := !run.Quick()
 	if d := os.Getenv("C20_DEBUG"); d != "" {
 		var i uint64
@@ -2212,13 +2239,15 @@ func main() {
 			defer wg.Done()
 			for {
 				i := next.Add(1) - 1
-				if i >= uint64(n+nLong) {
+				switch {
+				case i >= uint64(n+nLong+nVery):
 					return
-				}
-				if i < uint64(nLong) {
-					runSession(run, longHoldBase+i, thorough)
-				} else {
-					runSession(run, i-uint64(nLong), thorough)
+				case i < uint64(nVery):
+					runSession(run, longHoldBase+veryLongOff+i, thorough)
+				case i < uint64(nVery+nLong):
+					runSession(run, longHoldBase+i-uint64(nVery), thorough)
+				default:
+					runSession(run, i-uint64(nVery+nLong), thorough)
 				}
 			}
 		}()
@@ -2227,7 +2256,7 @@ func main() {
 	reportViolations(run)
 	e2eTier(run)
 
-	run.FloorCounter("sessions", int64((n+nLong)*9/10))
+	run.FloorCounter("sessions", int64((n+nLong+nVery)*9/10))
 	run.FloorCounter("long_hold_sessions_past_sorter_window_complete", int64(run.Pick(4, 80)))
 	run.FloorCounter("long_hold_frames_released_behind_written_audio_present", int64(run.Pick(20, 400)))
 	run.FloorCounter("blocks_verified_exact", int64(run.Pick(5000, 200000)))
@@ -2253,6 +2282,7 @@ func main() {
 	}
 	run.Assume("streams are RTP-conformant: the marker bit ends every video frame (RFC 7741/6184, VP9 payload), one Opus frame per packet, 20 ms; keyframes carry their header in the first packet; constant resolution within a session")
 	run.Assume("delivery stays inside the recorder's reorder window: displacement <= 10 packets (6 for audio) and never more than 400 ms late, withheld runs of 1..35 packets (1..4 for audio; runs may merge, always far below 256); a late start precedes the first packet by at most 20 packets (8 for audio); the server cache holds a withheld packet from the start and any other packet once it was forwarded; the buffer passed to Write is reused afterwards, as the server's writer loop does")
+	run.Assume("long-hold class: the reorder window is the recorder's, counted in packets of the track (256 for video), not in time: a video packet 30-200 video packets late is inside it however many seconds that is, so every frame from the first keyframe on is demanded; the late packets lie at least three frames behind the first keyframe (mid-stream: the file exists and the origin is fixed, so the known finding wrap-heuristic-misfire, which needs a sample released before the origin, is out of reach) and are never the first packet of a frame of several packets (arriving late behind an emptied sample builder such a packet lands in the last slot of the ring and its frame wraps around: known finding samplebuilder:ring-wrap-off-by-one, exercised by the reorder classes); they do not enter the arrival skew allowed between the two tracks' origins, which are fixed long before")
 	run.Assume("completeness is demanded from the first complete keyframe that starts at or after the first packet the recorder saw (audio next to video: from the first audio frame written), for every frame when nothing is unrecoverable, and otherwise only for the frames behind the last unrecoverable packet (they are buffered in the recorder when it is closed: flush)")
 	run.Assume("the harness does not sleep, so audio only starts after the video when both tracks carry sender reports from the start; without sender reports the recorder can only align tracks by arrival: the allowed audio/video origin error then includes the arrival skew the harness introduced (path delay, displacement, withheld runs) and the measured wall time of the session; blocks pushed after both tracks received a sender report must agree within max(one video frame interval, 40 ms)")
 	run.Assume("H264 keyframes made of STAP-A{SPS,PPS} + IDR are only generated where no packet can be missing for good (not in gap-lost, gap-mixed, late-start): once the STAP-A is lost the IDR's first packet is a partition head that no RTP-level recorder can tell from a frame start, so 'complete frames only' and 'no frame lost' cannot both be met there")
